@@ -997,6 +997,10 @@ impl Translator {
                         self.translate_expr(array, offset_table, mono, st);
                         self.translate_expr(index, offset_table, mono, st);
                         self.emit(st, Instr::GetIndex(Reg::Top, Reg::Top));
+                        // an element of type void is a placeholder: a void expression leaves nothing
+                        if self.get_ty(mono, expr.node()).unwrap() == SolvedType::Void {
+                            self.emit(st, Instr::Pop);
+                        }
                     }
                     _ => {
                         // interface method Index::index_get()
@@ -2543,8 +2547,13 @@ impl Translator {
                 self.emit(st, Instr::PushInt(0 as AbraInt));
                 self.emit(st, Instr::EqualInt(Reg::Top, Reg::Top, Reg::Top));
                 self.emit(st, Instr::JumpIfFalse(end_label_iter.clone()));
-                let mut or_pat_decisions = HashSet::default();
-                self.handle_pat_binding(pat, offset_table, st, mono, &mut or_pat_decisions);
+                if self.get_ty(mono, pat.node()).unwrap() == SolvedType::Void {
+                    // an item of type void is a placeholder: there is nothing to bind
+                    self.emit(st, Instr::Pop);
+                } else {
+                    let mut or_pat_decisions = HashSet::default();
+                    self.handle_pat_binding(pat, offset_table, st, mono, &mut or_pat_decisions);
+                }
                 st.loop_stack.push(EnclosingLoop {
                     start_label: start_label.clone(),
                     end_label: end_label_break.clone(),
